@@ -124,7 +124,7 @@ let () =
     let line = input_line stdin in
     (try
       let pr = prog (parse line) in
-      let guards = nodupb (func_names pr) && backward_refs pr in
+      let guards = nodupb (func_names pr) && wf_prog pr in
       let buf = Buffer.create 1024 in
       Buffer.add_string buf (Printf.sprintf "guards=%d" (if guards then 1 else 0));
       (match compile_prog (prog_fuel pr) pr with
